@@ -338,15 +338,11 @@ Fixpoint run_ops (ops : list op) (s : net) : net * list (res (list delivery)) :=
   end.
 
 (* ---- re-entrant callbacks: a user callback that, when invoked, performs one scripted operation on
-   the same network (and swallows its exception).  Network.notify does
-       callbacks = self.subscribers[can_id]
-       for callback in callbacks: callback(...)
-   i.e. it walks the LIST OBJECT by index while callbacks may change it: an append to that list is
-   visited in the same dispatch, a removal at or before the current index shifts the rest (the
-   element that moves into the current slot is skipped), and `del subscribers[can_id]` detaches the
-   list object, which is then walked to its end as it was.  [det] = the detached list, if any.
-   Not covered by the theorems (they speak about histories whose callbacks do not touch the
-   network); tied to the code by the correspondence only. *)
+   the same network (and swallows its exception).  Network.notify does (since fix 6860d47)
+       for callback in list(self.subscribers[can_id]): callback(...)
+   i.e. it walks a SNAPSHOT of the id's list taken when the frame arrives: exactly those callbacks
+   are invoked, once each, in order, whatever they do to the table meanwhile; their operations take
+   effect in that order and later frames follow the updated table. *)
 Definition script_of (scripts : list (Z * op)) (h : handler) : option op :=
   match h with HUser u => zassoc u scripts | _ => None end.
 
@@ -355,38 +351,24 @@ Definition plain_op (o : op) : bool := match o with ONotify _ _ _ | ORecv _ => f
 Definition live_list (c : Z) (s : net) : list handler :=
   match lookup c (subs s) with Some l => l | None => [] end.
 
-Fixpoint dispatch_re (scripts : list (Z * op)) (fuel : nat) (c : Z) (data : list Z) (ts : Z) (i : nat)
-    (det : option (list handler)) (s : net) (log : list delivery) : net * res (list delivery) :=
-  match fuel with
-  | O => (s, Err E_FUEL)
-  | S f =>
-      let l := match det with Some l => l | None => live_list c s end in
-      match nth_error l i with
-      | None => (s, Ok log)
-      | Some h =>
-          let log' := log ++ [(h, c, data, ts)] in
-          match script_of scripts h with
-          | Some o =>
-              if plain_op o then
-                let s' := fst (step o s) in
-                let det' := match det, o with
-                            | None, OUnsub c' None => if c' =? c then Some l else None
-                            | d, _ => d
-                            end in
-                dispatch_re scripts f c data ts (S i) det' s' log'
-              else dispatch_re scripts f c data ts (S i) det s log'
-          | None => dispatch_re scripts f c data ts (S i) det s log'
-          end
-      end
+(* the operations performed by the callbacks of the snapshot, in order *)
+Fixpoint dispatch_re (scripts : list (Z * op)) (l : list handler) (s : net) : net :=
+  match l with
+  | [] => s
+  | h :: r =>
+      let s' := match script_of scripts h with
+                | Some o => if plain_op o then fst (step o s) else s
+                | None => s
+                end in
+      dispatch_re scripts r s'
   end.
 
 Definition notify_re (scripts : list (Z * op)) (c : Z) (data : list Z) (ts : Z) (s : net)
   : net * res (list delivery) :=
-  let '(s1, r) := match lookup c (subs s) with
-                  | Some _ => dispatch_re scripts 4096 c data ts 0 None s []
-                  | None => (s, Ok [])
-                  end in
-  ({| subs := subs s1; nodes := nodes s1; scanned := scan_step (scanned s1) c; chans := chans s1 |}, r).
+  let l := live_list c s in
+  let s1 := dispatch_re scripts l s in
+  ({| subs := subs s1; nodes := nodes s1; scanned := scan_step (scanned s1) c; chans := chans s1 |},
+   Ok (map (fun h => (h, c, data, ts)) l)).
 
 Definition step_re (scripts : list (Z * op)) (o : op) (s : net) : net * res (list delivery) :=
   match o with
